@@ -167,6 +167,8 @@ def pos_case(cid, subj, r, small):
 
 # --- generators -------------------------------------------------------------------------------------------
 LONG_ALPHABET = "aaAbB eéÉ€\U0001F600́\n\n\r\t0_-ſK.éa"
+# the first and last code point of every UTF-8 length class, the neighbours of the surrogate gap, U+FFFD itself
+EDGE_ALPHABET = "\x00\x7f\x80\u07ff\u0800\ud7ff\ue000\ufffd\uffff\U00010000\U0010ffff"
 
 
 def long_subject(r, lo=5, hi=40):
@@ -177,7 +179,7 @@ def long_subject(r, lo=5, hi=40):
             a = r.randrange(len(out))
             out += out[a:a + r.randint(1, 3)]
         else:
-            out.append(r.choice(LONG_ALPHABET))
+            out.append(r.choice(EDGE_ALPHABET if r.random() < 0.08 else LONG_ALPHABET))
     return "".join(out[:n])
 
 
